@@ -32,6 +32,7 @@ def shards(tier, seed):
         out.append({'name': f'handshake-prss{int(prss)}', 'kind': 'handshake', 'prss': prss})
     out.append({'name': 'single-frame-exhaustive-c2s', 'kind': 'single', 'dir': 'c2s'})
     out.append({'name': 'single-frame-exhaustive-s2c', 'kind': 'single', 'dir': 's2c'})
+    out.append({'name': 'bulk', 'kind': 'bulk', 'reps': 2 if tier == 'quick' else 8})
     nm = 4 if tier == 'quick' else 24
     for k in range(nm):
         out.append({'name': f'multi-{k}', 'kind': 'multi', 'k': k})
@@ -42,15 +43,37 @@ def shards(tier, seed):
 
 
 class CapTransport:
+    """Captures what the protocol writes.  Like asyncio's socket transports under back-pressure (no copy is made since Python 3.12), it keeps the
+    *objects* written and reads them only when the bytes leave - here: when the harness reads .data, after all sends of a batch.  It also implements
+    read flow control: while reading is paused the harness feeds nothing to the protocol."""
+
     def __init__(self):
-        self.data = bytearray()
+        self.parts = []
+        self.paused = False
+        self.pauses = 0
 
     def write(self, b):
-        self.data += bytes(b)
+        self.parts.append(b)
 
     def writelines(self, l):
-        for b in l:
-            self.data += bytes(b)
+        self.parts.extend(l)
+
+    @property
+    def data(self):
+        return b''.join(bytes(p) for p in self.parts)
+
+    def pause_reading(self):
+        self.paused = True
+        self.pauses += 1
+
+    def resume_reading(self):
+        self.paused = False
+
+    def is_reading(self):
+        return not self.paused
+
+    def get_write_buffer_size(self):
+        return sum(len(p) for p in self.parts)
 
     def close(self):
         pass
@@ -290,6 +313,55 @@ def run(shard, rec):
                     feed_and_check(rec, rcv, rctx, stream, cuts_to_chunks(stream, cuts), frames, before, case)
                     rec.case(case, nontrivial=bool(cuts) or bool(before),
                              sample={'frames': [(l, b.hex()) for l, b in frames], 'cuts': list(cuts)[:8], 'before': sorted(before)} if rng.random() < 0.0005 else None)
+        return
+    if kind == 'bulk':
+        # a sequential consumer that first awaits small messages sent *after* tens of MiB of other messages, then claims the large ones in another order;
+        # the producer's writes are kept by reference until they leave; the harness honours pause_reading(): delivery is whatever the protocol lets through
+        for rep in range(shard['reps']):
+            direction = ['c2s', 's2c'][rep % 2]
+            p, snd, sctx, str_, rcv, rctx = endpoints(direction)
+            rtr = p.st if direction == 'c2s' else p.ct        # the receiving side's own transport (the one it would pause)
+            big = [(1000 + k, rng.randbytes(1 << 20)) for k in range(20 + 4 * rep)]
+            small = [(5, b'abc'), (6, b''), (-7, rng.randbytes(17))]
+            frames = big + small
+            stream = frame_bytes(snd, sctx, str_, frames)
+            case = ['bulk', rep, direction]
+            if not rec.wants(case):
+                continue
+            model = dict(frames)
+            await_order = [l for l, _ in small] + [l for l, _ in reversed(big)]
+            pos, step = 0, 1 << 18
+            got = {}
+            stuck = None
+            for lab in await_order:
+                r = rctx.run(rcv.receive, lab)
+                rec.count('receives_before_arrival' if isinstance(r, asyncio.Future) else 'receives_after_arrival')
+                while isinstance(r, asyncio.Future) and not r.done():
+                    if pos >= len(stream):
+                        stuck = f'label {lab}: the whole stream was delivered but the receive is still pending'
+                        break
+                    if rtr.paused:
+                        stuck = (f'label {lab}: the consumer waits for a message that is still in the socket while the protocol has paused reading '
+                                 f'({pos} of {len(stream)} bytes delivered): nothing can ever resume it')
+                        break
+                    rctx.run(rcv.data_received, stream[pos:pos + step])
+                    rec.count('chunks_fed')
+                    pos += step
+                if stuck:
+                    break
+                got[lab] = r.result() if isinstance(r, asyncio.Future) else r
+            rec.count('bulk_sessions')
+            rec.count('bulk_bytes', len(stream))
+            if stuck:
+                rec.violation(f'bulk session {direction}: {stuck}', {'mechanism': 'future-unresolved'}, {'case': case}, case=case)
+            else:
+                for lab, pl in model.items():
+                    if bytes(got[lab]) != pl:
+                        rec.violation(f'bulk session {direction}: label {lab} delivered {len(got[lab])} bytes {bytes(got[lab])[:8].hex()}.., sent {len(pl)} bytes {pl[:8].hex()}..', {'mechanism': 'wrong-payload'}, {'case': case}, case=case)
+                        break
+                if rcv.buffers or len(rcv.bytes):
+                    rec.violation('bulk session: leftover buffers/bytes', {'mechanism': 'leftover'}, {'case': case}, case=case)
+            rec.case(case, nontrivial=True, sample={'direction': direction, 'frames': len(frames), 'stream_bytes': len(stream), 'await_order': await_order[:5]})
         return
     if kind == 'session':
         # long random sessions: receives interleaved with chunk arrivals at random
